@@ -49,6 +49,7 @@ structure Caller where
   active : Bool       -- userdata['state'] != 'inactive'
   developer : Bool    -- userdata['is_developer'] == 1
   isAuth : Bool       -- userdata['username'] == 'auth'
+  serviceAccount : Bool  -- userdata['is_service_account'] == 1 (auth, ci, grafana, test, … are service accounts; no guard reads it)
   member : Bool       -- the batch exists and the user is in its billing project (`_user_can_access`)
   owner : Bool        -- batches.user = username
   batchIdOk : Bool    -- `int(request.match_info['batch_id'])` succeeds
@@ -146,8 +147,8 @@ def bools : List Bool := [false, true]
 
 def allCallers : List Caller :=
   bools.flatMap fun a => bools.flatMap fun b => bools.flatMap fun c => bools.flatMap fun d =>
-  bools.flatMap fun e => bools.flatMap fun f => bools.map fun g =>
-    { hasSession := a, active := b, developer := c, isAuth := d, member := e, owner := f, batchIdOk := g }
+  bools.flatMap fun e => bools.flatMap fun f => bools.flatMap fun g => bools.map fun h =>
+    { hasSession := a, active := b, developer := c, isAuth := d, serviceAccount := h, member := e, owner := f, batchIdOk := g }
 
 def routeGuarded (r : Route) : Bool :=
   allCallers.all fun c => decision r.decorators r.isApi c != .allow || establishes (required r.method r.segs) r c
@@ -227,5 +228,11 @@ def mutateOld (m : Mutator) (q : MutReq) : MutResult :=
       if q.passesOwnerFilter then { ok := true, changed := true } else { ok := false, changed := r.changed }
     else { ok := true, changed := true }
   | _ => if q.passesOwnerFilter then { ok := true, changed := true } else { ok := false, changed := false }
+
+/-- billing-project administration through the API routes (`authenticated_developers_or_auth_only` + handler body): what a caller
+who is not a developer and not the auth service gets -/
+def adminOnly (developer isAuth : Bool) : Option MutResult :=
+  if developer || isAuth then none            -- an administrator: the outcome depends on the request, not modelled
+  else some { ok := false, changed := false }
 
 end HailVerif.Access
